@@ -1,6 +1,7 @@
 """C16 rules R1-R3 (extrema, per-case records, maxmin / nan_arg*, SRS envelope) decided on values and effects (c16_interp)."""
 from __future__ import annotations
 
+from . import c16_mask as M
 from .c16_interp import Interp, NONE, is_const, mem, op, show, free_syms
 
 UTIL = "pyyeti/cla/_utilities.py"
@@ -145,6 +146,31 @@ def is_nan(t):
     return t in (("g", "np.nan"), ("g", "np.NaN"), ("g", "math.nan"), ("g", "nan")) or (t[0] == "call" and t[1] == "float" and t[2] == (("c", "nan"),))
 
 
+def rows_mask(J):
+    """the boolean mask behind a row selector: `mask.nonzero()[0]` (any spelling the interpreter lowers to it) or the mask used directly"""
+    if J[0] == "idx" and J[2] in (("c", 0), ("c", -1)) and J[1][0] == "call" and J[1][1] == ".nonzero" and len(J[1][2]) == 1:
+        return M.canon(J[1][2][0])
+    return M.canon(J)
+
+
+def same_rows(X, J):
+    return X == J or rows_mask(X) == rows_mask(J)
+
+
+def at_rows(v, base, J, col):
+    """v is base[J, col] (rows J possibly spelled another way)"""
+    return v[0] in ("idx", "ld") and v[1] == base and v[2][0] == "tup" and len(v[2]) == 3 and v[2][2] == ("c", col) and same_rows(v[2][1], J)
+
+
+def selector_of(J):
+    """the nan_argmax / nan_argmin call a row selector is computed from, decided by truth table (inlined masks, `operator.gt`, De Morgan
+    forms are the call they equal); None when the rows are selected some other way"""
+    m = rows_mask(J)
+    if m[0] == "call" and m[1] in ("nan_argmax", "nan_argmin") and len(m[2]) == 2 and not m[3]:
+        return m
+    return None
+
+
 def ext_roots(P, v):
     """memory roots of v that are not objects created on the path"""
     r, cert = mem(P, v)
@@ -160,8 +186,28 @@ def _extrema(ctx, ncol):
     cur, mm, mxc, mnc, cnum = pr[:5]
     pins = {("attr", ("attr", ("s", mm), "ext"), "shape"): ("tup", ("s", "<rows>"), ("c", ncol))}
     I = Interp(ctx, UTIL, "extrema", kinds={mxc: "list", mnc: "list", cnum: "scalar"}, noinline={"nan_argmax", "nan_argmin"}, pins=pins,
-               cond=lambda key, P: True if key[0] == "truth" and key[1][0] == "attr" and key[1][2] == "size" else None)
+               cond=_some_rows)
     return fn, I, good_paths(ctx, I), (cur, mm, mxc, mnc, cnum)
+
+
+def _some_rows(key, P):
+    """the rules look at the paths on which a selector picks at least one row: `j.size`, `len(j)`, `j.shape[0]`, `mask.any()`,
+    `np.count_nonzero(mask)` are true there (an empty selection replaces nothing)"""
+    if key[0] != "truth":
+        return None
+    x = key[1]
+    if x[0] == "attr" and x[2] == "size":
+        return True
+    if x[0] == "call" and x[1] == "len" and len(x[2]) == 1 and ".nonzero" in repr(x[2][0]):
+        return True
+    if x[0] == "idx" and x[2] == ("c", 0) and x[1][0] == "attr" and x[1][2] == "shape" and ".nonzero" in repr(x[1][1]):
+        return True
+    if x[0] == "call" and x[1] in (".any", "np.any", "np.count_nonzero", ".sum", "np.sum") and len(x[2]) == 1 and not x[3]:
+        try:
+            return True if M.classify(P.norm(x[2][0])) is not None else None
+        except M.Unknown:
+            return None
+    return None
 
 
 def raise_anchor(msg):
@@ -238,11 +284,7 @@ def r1_roles(ctx):
                 J, role = ix[1], ix[2][1]
                 rname = "max" if role == 0 else "min"
                 seen_roles.add(role)
-                sel = None
-                if J[0] == "idx" and J[2] == ("c", 0) and J[1][0] == "call" and J[1][1] == ".nonzero" and len(J[1][2]) == 1:
-                    s_ = J[1][2][0]
-                    if s_[0] == "call" and s_[1] in ("nan_argmax", "nan_argmin") and len(s_[2]) == 2 and not s_[3]:
-                        sel = s_
+                sel = selector_of(J)
                 if sel is None and J[0] == "idx" and is_const(J[2]) and J[2][1] not in (0, -1) and J[1][0] == "call" and J[1][1] == ".nonzero":
                     A.req(f"extrema [{arm}]: the replaced rows are element 0 of .nonzero() of the (1-D) selector mask", False, e.node, show(J))
                     continue
@@ -270,11 +312,11 @@ def r1_roles(ctx):
                           show(sel))
                 else:
                     A.req(f"extrema [two-column]: the {rname} comparison is on signed values", not a_abs and not b_abs, e.node, show(sel))
-                ok = v == ("idx", MEXT, ("tup", J, ("c", want_b)))
+                ok = at_rows(v, MEXT, J, want_b)
                 A.req(f"extrema [{arm}]: the stored {rname} value is column {want_b} of the incoming data at the same rows", ok, e.node, show(v))
                 # labels
                 lab = [(x, tg) for x, tg in evs if x.kind == "store" and tg[0] == "attr" and tg[1] == CUR and tg[2] in ("maxcase", "mincase")
-                       and P.norm(x.index) == ("elem", J)]
+                       and P.norm(x.index)[0] == "elem" and same_rows(P.norm(x.index)[1], J)]
                 want_attr = "maxcase" if role == 0 else "mincase"
                 if len(lab) != 1:
                     A.req(f"extrema [{arm}]: the {rname} update relabels {want_attr} at the replaced rows", None if not lab else False, e.node,
@@ -285,7 +327,7 @@ def r1_roles(ctx):
                     lv = P.norm(x.value)
                     nomin = fact_of(P, t_nomin)
                     want_src = mxc if (role == 0 or ncol == 1 or nomin is True) else mnc
-                    ok = lv[0] == "idx" and lv[2] == ("elem", J) and content_root(lv[1]) == ("s", want_src)
+                    ok = lv[0] == "idx" and lv[2] == P.norm(x.index) and content_root(lv[1]) == ("s", want_src)
                     A.req(f"extrema [{arm}]: the label for the {rname} update is the incoming "
                           f"{'maxcase' if (role == 0 or ncol == 1) else 'mincase (maxcase when mincase is None)'} label of the same row", ok, x.node, show(lv))
                 # abscissa: the store into the abscissa table at the same rows (matched by the row selector, not by statement order); when
@@ -294,7 +336,7 @@ def r1_roles(ctx):
                 cur_x = fact_of(P, op("is", EXTX, NONE))
                 sets = [(x, tg) for x, tg in evs if x.kind == "setattr" and tg == CUR and x.name == "ext_x"]
                 xs = [(x, tg) for x, tg in evs if x.kind == "store" and (tg == EXTX or (tg[0] == "new" and content_root(tg) == MEXTX))
-                      and P.norm(x.index)[0] == "tup" and len(P.norm(x.index)) == 3 and P.norm(x.index)[1] == J]
+                      and P.norm(x.index)[0] == "tup" and len(P.norm(x.index)) == 3 and same_rows(P.norm(x.index)[1], J)]
                 for x, tg in sets:
                     xv = P.norm(x.value)
                     ok = (xv == NONE and cur_x is True) or (nox is False and cur_x is True and content_root(xv) == MEXTX)
@@ -308,11 +350,11 @@ def r1_roles(ctx):
                 else:
                     x, tg = xs[0]
                     xi, xv = P.norm(x.index), P.norm(x.value)
-                    ok = xi == ("tup", J, ("c", role)) and len(xs) == 1
+                    ok = xi[2] == ("c", role) and len(xs) == 1
                     if nox is True:
                         ok = ok and is_nan(xv)
                     else:
-                        ok = ok and xv == ("idx", MEXTX, ("tup", J, ("c", want_b)))
+                        ok = ok and at_rows(xv, MEXTX, J, want_b)
                     A.req(key, ok, x.node, {"index": show(xi), "value": show(xv)})
             if len(groups) == 2:
                 A.req(f"extrema [{arm}]: one block updates the max column, the other the min column", seen_roles == {0, 1}, fn, sorted(seen_roles))
@@ -475,60 +517,85 @@ def _frf_minus(ctx):
 
 # ------------------------------------------------------------------------------------------------------------------------- R2
 def r2_mirror(ctx):
-    vals = {}
+    # nan_argmax / nan_argmin: the returned mask equals the documented one in every feasible world of an element pair (c16_mask): spelling,
+    # helper functions and comparison functions passed as values do not matter
+    tabs = {}
     for q in ("nan_argmax", "nan_argmin"):
         fn = ctx.src.func(UTIL, q)
         v1, v2 = params(fn)[:2]
         I = Interp(ctx, UTIL, q)
         paths = good_paths(ctx, I)
         cmp_ = ">" if q == "nan_argmax" else "<"
-        want = I.expect(f"({v2} {cmp_} {v1}) | (np.isnan({v1}) & ~np.isnan({v2}))")
         got = [P.norm(P.ret) for P in paths]
-        ok = len(got) >= 1 and all(g == want for g in got)
-        vals[q] = (got[0] if got else None, v1, v2)
-        ctx.check(ok, f"{q}: (v2 {cmp_} v1) | (isnan(v1) & ~isnan(v2)) (a NaN is replaced by any number, never the reverse)", fn,
-                  None if ok else {"returns": [show(g) for g in got], "documented": show(want)})
+        ok = True if got else None
+        det = None
+        tabs[q] = None
+        for g in got:
+            try:
+                tab = M.table(g, ("s", v1), ("s", v2))
+            except M.Unknown as ex:
+                ok, det = None, {"returns": show(g), "not understood": str(ex)}
+                break
+            tabs[q] = tab if tabs[q] in (None, tab) else False
+            if tab != M.documented(q):
+                worlds = [f"{'v1 ' + {'lt': '<', 'eq': '==', 'gt': '>'}[r] + ' v2' if r != 'un' else 'NaN: ' + ('v1 ' if a else '') + ('v2' if b else '')}: "
+                          f"{t} (documented {d})" for (r, a, b), t, d in zip(M.WORLDS, tab, M.documented(q)) if t != d]
+                ok, det = False, {"returns": show(g), "differs where": worlds}
+                break
+        msg = f"{q}: (v2 {cmp_} v1) | (isnan(v1) & ~isnan(v2)) (a NaN is replaced by any number, never the reverse)"
+        if ok is None:
+            ctx.error(msg, fn, det or "no returning path")
+        else:
+            ctx.check(ok, msg, fn, det)
     # mirror: the two functions differ only in the direction of the comparison
-    (ga, a1, a2), (gb, b1, b2) = vals["nan_argmax"], vals["nan_argmin"]
-
-    def swap(t):
-        if not isinstance(t, tuple):
-            return t
-        if t[0] == "op" and t[1] == "gt" and len(t) == 4:
-            return ("op", "gt", swap(t[3]), swap(t[2]))
-        if t == ("s", b1):
-            return ("s", a1)
-        if t == ("s", b2):
-            return ("s", a2)
-        if t[0] == "call":
-            return ("call", t[1], tuple(swap(x) for x in t[2]), tuple((k, swap(v)) for k, v in t[3]))
-        if t[0] == "op" and t[1] in ("and_", "or_", "add", "mul"):
-            return op(t[1], *[swap(x) for x in t[2:]])
-        return tuple(swap(x) if isinstance(x, tuple) else x for x in t)
-
-    ok = ga is not None and gb is not None and swap(gb) == ga
-    ctx.check(ok, "nan_argmax / nan_argmin are mirror images (`>` <-> `<`, same NaN rule)", ctx.src.func(UTIL, "nan_argmin"),
-              None if ok else {"max": show(ga), "min": show(gb)})
+    ta, tb = tabs["nan_argmax"], tabs["nan_argmin"]
+    msg = "nan_argmax / nan_argmin are mirror images (`>` <-> `<`, same NaN rule)"
+    if not ta or not tb:
+        (ctx.error if (ta is None or tb is None) else ctx.fail)(msg, ctx.src.func(UTIL, "nan_argmin"), "a mask is not the same on every path" if (ta is False or tb is False) else "a mask could not be evaluated")
+    else:
+        ctx.check(M.mirror(ta) == tb, msg, ctx.src.func(UTIL, "nan_argmin"), None if M.mirror(ta) == tb else {"max": ta, "min": tb})
     # nan_absmax
     fn = ctx.src.func(UTIL, "nan_absmax")
     v1, v2 = params(fn)[:2]
     I = Interp(ctx, UTIL, "nan_absmax", noinline={"nan_argmax"})
     paths = good_paths(ctx, I)
-    ok = bool(paths)
+    ok = True if paths else None
     det = None
+    V1, V2 = ("s", v1), ("s", v2)
+    pv = ("call", "nan_argmax", (op("abs", V1), op("abs", V2)), ())
     for P in paths:
         r = P.ret
-        pv = I.expect(f"nan_argmax(abs({v1}), abs({v2}))")
-        if not (r[0] == "tup" and len(r) == 3 and P.obj(r[1]) is not None):
-            ok, det = False, show(P.norm(r))
+        if not (r[0] == "tup" and len(r) == 3):
+            ok, det = None, show(P.norm(r))
             break
         amx = r[1]
-        st = [e for e in P.stores() if e.target == amx]
-        good = content_root(P.norm(amx)) == ("s", v1) and P.norm(r[2]) == pv and len(st) == 1 and P.norm(st[0].index) == pv \
-            and P.norm(st[0].value) == ("idx", ("s", v2), pv)
-        if not good:
-            ok, det = False, {"returns": show(P.norm(r)), "stores": [(show(P.norm(e.index)), show(P.norm(e.value))) for e in st]}
-    ctx.check(ok, "nan_absmax: a copy of v1 with v2 where |v2| > |v1| (nan_argmax of the absolute values), sign kept; the mask is returned with it", fn, det)
+        mask = M.canon(P.norm(r[2]))
+        st = [e for e in P.stores() if e.target == amx] if P.obj(amx) is not None else []
+        if mask != pv:
+            # another selector, or another decidable mask, is a different function; anything else is not understood
+            known = mask[0] == "call" and mask[1] in ("nan_argmax", "nan_argmin")
+            if not known:
+                try:
+                    known = M.classify(mask) is None
+                except M.Unknown:
+                    known = False
+            good = False if known else None
+        elif P.obj(amx) is not None and content_root(P.norm(amx)) == V1 and len(st) == 1:
+            good = M.canon(P.norm(st[0].index)) == pv and M.canon(P.norm(st[0].value)) == ("idx", V2, pv)
+        elif M.canon(P.norm(amx)) in (("call", "np.where", (pv, V2, V1), ()), ("call", "np.where", (op("inv", pv), V1, V2), ())):
+            good = True
+        else:
+            good = False if (P.obj(amx) is not None and content_root(P.norm(amx)) == V1) else None
+        if good is not True:
+            ok = good if ok is not False else ok
+            det = {"returns": show(P.norm(r)), "stores": [(show(P.norm(e.index)), show(P.norm(e.value))) for e in st]}
+            if good is False:
+                break
+    msg = "nan_absmax: a copy of v1 with v2 where |v2| > |v1| (nan_argmax of the absolute values), sign kept; the mask is returned with it"
+    if ok is None:
+        ctx.error(msg, fn, det or "no returning path")
+    else:
+        ctx.check(ok, msg, fn, det)
     _maxmin(ctx)
     # the two selectors of each arm of extrema are each other's mirror image
     for ncol in (1, 2):
@@ -540,8 +607,12 @@ def r2_mirror(ctx):
         n = 0
         for P in paths:
             sels = {}
-            for e in P.calls("nan_argmax", "nan_argmin"):
-                sels.setdefault(e.name, []).append(P.norm(e.value))
+            found = [selector_of(P.norm(e.index)[1]) for e in P.stores() if P.norm(e.target) == EXT and P.norm(e.index)[0] == "tup"
+                     and len(P.norm(e.index)) == 3]
+            found += [M.canon(P.norm(e.value)) for e in P.calls("nan_argmax", "nan_argmin")]
+            for sv in found:
+                if sv is not None and sv not in sels.setdefault(sv[1], []):
+                    sels[sv[1]].append(sv)
             if not sels:
                 continue
             n += 1
